@@ -87,6 +87,22 @@ def global_name(I, name, ctx, module_hint=None):
             if isinstance(node, ast.Name):
                 return global_name(I, node.id, {"module": mod})
             return FuncV("builtin", name="global:" + name, self=None)
+    # names imported at module level from the standard library: an opaque library function /
+    # class named "<module>.<name>" (callable only if a library contract is registered for it)
+    import ast as _ast
+    for mod in mods:
+        for node in mod.tree.body:
+            if isinstance(node, _ast.ImportFrom):
+                for a in node.names:
+                    if (a.asname or a.name) == name:
+                        full = "%s.%s" % (node.module, a.name)
+                        if ("new:" + a.name) in I.lib or ("new:" + full) in I.lib:
+                            return ClsV(a.name)
+                        return FuncV("builtin", name=a.name if a.name in I.lib else full, self=None)
+            elif isinstance(node, _ast.Import):
+                for a in node.names:
+                    if (a.asname or a.name) == name:
+                        return ModV(a.name)
     raise OutOfReach("unknown global name %s" % name)
 
 
